@@ -100,13 +100,8 @@ Definition noinew (st : state) : Prop := SP (fun _ o => negb (inew o)) st.
 Lemma unswitch_one_inv : forall i st, Inv st /\ noinew st -> Inv (unswitch_one i st) /\ noinew (unswitch_one i st).
 Proof.
   intros i st [HI HN]. unfold unswitch_one. destruct (oksw (get st i)) as [old|]; auto.
-  destruct (itnew (get st i)).
-  - split.
-    + apply pass_mono; auto. intros k o Hk Hj. unfold only. destruct (Nat.eqb k i); [|split; auto].
-      pose proof (HN k o Hk) as Hn. simpl in Hn. revert Hj Hn. ocase.
-    + intros k o' Hk. apply app_all_inv_nth in Hk as [o [Hk ->]]. unfold only.
-      pose proof (HN k o Hk) as Hn. simpl in Hn. destruct (Nat.eqb k i); auto.
-  - split.
+  destruct (itnew (get st i)); [split; auto|].
+  split.
     + apply Inv_flag_bad. apply Inv_flag_bad. apply pass_claiming; auto. intros o Hk Hj. pose proof (HN i o Hk) as Hn. simpl in Hn. revert Hj Hn. ocase.
     + intros k o' Hk. simpl in Hk. apply app_all_inv_nth in Hk as [o [Hk ->]]. unfold claiming.
       pose proof (HN k o Hk) as Hn. simpl in Hn. destruct (Nat.eqb k i); auto.
@@ -242,6 +237,8 @@ Proof.
   { apply get_miss_inv. apply Inv_flag_bad. apply pass_mono_only; auto. apply mono_newly_deleted. }
   destruct (Z.eqb c 5); auto. destruct (Z.eqb c 0); simpl; auto.
   destruct (negb (memz (key_pk (get st1 h)) rws)); simpl; auto.
+  destruct (odel (get st1 h)); simpl; auto.
+  destruct (holder k st1); simpl; auto. apply get_miss_inv; auto.
 Qed.
 
 Lemma do_refresh_inv : forall e i st, Inv st -> Inv (rst (do_refresh e i st)).
